@@ -316,4 +316,6 @@ pub struct Engine {
     /// free-text description of simulated time for the evidence
     pub simulated_time: &'static str,
     pub alloc_cap: usize,
+    /// seconds of worker silence after which it is killed as hung (per check id)
+    pub hang_s: fn(&str) -> u64,
 }
